@@ -63,6 +63,10 @@ _coerce_scheme_options = dict(
     vary_rounds=_coerce_vary_rounds,
     salt_size=int,
     truncate_error=_coerce_bool,
+    # other integer settings of individual schemes (bcrypt_sha256, scrypt)
+    version=int,
+    block_size=int,
+    parallelism=int,
 )
 
 
